@@ -44,6 +44,13 @@ package node
 //@ # a freshly chosen address is Valid, unowned, on an interface that is attached and in use, on the pod's side of the RDMA partition
 //@ guard store PodRequest.ipv4Ref in assignIPFromLocalPool: value == nil || target.IPv4 != "" || (value.IP.Status == "Valid" && value.IP.PodID == "" && value.NetworkInterface.Status == "InUse" && (target.RequireERDMA ==> value.NetworkInterface.NetworkInterfaceTrafficMode == "HighPerformance") && (!target.RequireERDMA && enableEDRMA ==> value.NetworkInterface.NetworkInterfaceTrafficMode != "HighPerformance"))
 //@ guard store PodRequest.ipv6Ref in assignIPFromLocalPool: value == nil || target.IPv6 != "" || (value.IP.Status == "Valid" && value.IP.PodID == "" && value.NetworkInterface.Status == "InUse" && (target.RequireERDMA ==> value.NetworkInterface.NetworkInterfaceTrafficMode == "HighPerformance") && (!target.RequireERDMA && enableEDRMA ==> value.NetworkInterface.NetworkInterfaceTrafficMode != "HighPerformance"))
+//@ # a pod that reports an address is re-adopted onto exactly the entry of that address ...
+//@ guard store PodRequest.ipv4Ref in assignIPFromLocalPool: value == nil || target.IPv4 == "" || (target.IPv4 in ipv4Map && value == ipv4Map[target.IPv4])
+//@ guard store PodRequest.ipv6Ref in assignIPFromLocalPool: value == nil || target.IPv6 == "" || (target.IPv6 in ipv6Map && value == ipv6Map[target.IPv6])
+//@ # ... and what the pod reports is never rewritten here (frame: only owners, references and the result map are written),
+//@ # so a reported address that is missing from the record leaves the pod unserved instead of giving it another address
+//@ func assignIPFromLocalPool
+//@   modifies networkv1beta1.IP.PodID, networkv1beta1.IP.PodUID, PodRequest.ipv4Ref, PodRequest.ipv6Ref, EniIP.NetworkInterface, EniIP.IP, map string *PodRequest
 //@ # dual stack: a freshly chosen IPv6 address comes from the interface that carries the pod's IPv4 address
 //@ guard store PodRequest.ipv6Ref in assignIPFromLocalPool: value == nil || target.IPv6 != "" || target.ipv4Ref == nil || value.NetworkInterface.ID == target.ipv4Ref.NetworkInterface.ID
 
